@@ -101,6 +101,10 @@ func (r *Record) decode(pd packetDecoder) (err error) {
 		return err
 	}
 
+	// every header takes at least two bytes (its two varint lengths)
+	if numHeaders > int64(pd.remaining()/2) {
+		return ErrInsufficientData
+	}
 	if numHeaders >= 0 {
 		r.Headers = make([]*RecordHeader, numHeaders)
 	}
